@@ -295,6 +295,40 @@ def rule_p1(ctx):
         for gb, gt, roots in gets:
             if _dominated_by_edges(mb, _some_edges(mb, gt), b):
                 ok_roots |= roots
+        # `cache_t.get(k).and_then(|t| cache_f.get(k).map(|f| (t, f)))`: Some exactly when the receiver is Some and the closure
+        # answers Some; a closure that returns (a `map` of) a lookup answers Some exactly when that lookup hits
+        for ab, at in mb.calls():
+            if at["func"].get("declared") != "std::option::Option::<T>::and_then" or len(at["args"]) != 2 or not _dominated_by_edges(mb, _some_edges(mb, at), b):
+                continue
+            for (r, pth) in mb.trace_operand(at["args"][0], through={}):
+                for gb, gt, roots in gets:
+                    if r[:2] == ("call", gb):
+                        ok_roots |= roots
+            if at["args"][1]["k"] not in ("copy", "move"):
+                continue
+            for (r, pth) in mb.trace(at["args"][1]["place"], through={}):
+                cid = mb.blocks[r[1]]["stmts"][r[2]]["rv"].get("closure") if r[0] == "agg" else None
+                if not cid or not ctx.has_fn(cid):
+                    continue
+                cb = ctx.body(cid)
+                rets = set()
+                for d in cb.defs().get(0, []):
+                    if d[0] == "call":
+                        rets.add(d[1])
+                    elif d[0] == "assign" and d[3]["rv"]["k"] == "use" and d[3]["rv"]["op"]["k"] in ("copy", "move"):
+                        rets |= {rr[1] for (rr, pp) in cb.trace(d[3]["rv"]["op"]["place"], through={}) if rr[0] == "call"}
+                hits = set()
+                for x in rets:
+                    ct = cb.term(x)
+                    if ct["func"].get("declared") == "std::option::Option::<T>::map":
+                        hits |= {rr[1] for (rr, pp) in cb.trace_operand(ct["args"][0], through={}) if rr[0] == "call"}
+                    else:
+                        hits.add(x)
+                if rets and all(mir.last_seg(mir.callee(cb.term(x)) or "") in ("get",) for x in hits) and hits:
+                    for x in hits:
+                        for (fid2, r2, p2) in ctx.lifted_trace(cb, cb.term(x)["args"][0]):
+                            if fid2 == mb.id:
+                                ok_roots.add(r2)
         # a key that is itself taken from iterating one of the operand memos is a member of that memo
         if len(t["args"]) > 1:
             for (r, pth) in mb.trace_operand(t["args"][1]):
